@@ -473,6 +473,17 @@ func (bc *boundsCtx) guards(v ssa.Value, at *ssa.BasicBlock) ival {
 				}
 			case token.EQL:
 				r = meet(r, or)
+			case token.NEQ:
+				// x != c trims an end point of the range
+				if or.okLo && or.okHi && or.lo == or.hi {
+					base := meet(r, bc.rangeOf(v, map[ssa.Value]bool{}))
+					if base.okLo && base.lo == or.lo {
+						r = meet(r, ival{or.lo + 1, 0, true, false})
+					}
+					if base.okHi && base.hi == or.lo {
+						r = meet(r, ival{0, or.lo - 1, false, true})
+					}
+				}
 			}
 		}
 	}
@@ -486,7 +497,60 @@ func samePathLoad(a, b ssa.Value) bool {
 		return false
 	}
 	pa, pb := pathOf(la.X), pathOf(lb.X)
-	return pa == pb && !strings.Contains(pa, "@0x")
+	if pa != pb {
+		return false
+	}
+	if !strings.Contains(pa, "@0x") {
+		return true
+	}
+	// rooted at a local cell: the same cell (the path carries its identity), provided the cell is
+	// written exactly once, in the entry block (a spilled parameter or a once-initialised local)
+	root := la.X
+	for {
+		switch n := root.(type) {
+		case *ssa.FieldAddr:
+			root = n.X
+			continue
+		case *ssa.IndexAddr:
+			root = n.X
+			continue
+		}
+		break
+	}
+	al, ok := root.(*ssa.Alloc)
+	if !ok || al.Referrers() == nil || strings.Count(pa, "@0x") != 1 {
+		return false
+	}
+	stores := 0
+	var walk func(v ssa.Value) bool
+	walk = func(v ssa.Value) bool {
+		for _, ref := range *v.Referrers() {
+			switch u := ref.(type) {
+			case *ssa.Store:
+				if u.Addr == v {
+					stores++
+					if u.Block() != al.Parent().Blocks[0] {
+						return false
+					}
+				} else {
+					return false // the address escapes
+				}
+			case *ssa.FieldAddr:
+				if !walk(u) {
+					return false
+				}
+			case *ssa.IndexAddr:
+				if !walk(u) {
+					return false
+				}
+			case *ssa.UnOp, *ssa.DebugRef:
+			default:
+				return false
+			}
+		}
+		return true
+	}
+	return walk(al) && stores == 1
 }
 
 // fieldKey identifies a struct field of a named struct type.
